@@ -65,8 +65,36 @@ def proj_slices(res, box, shape):
     return [[rng(sl[0], h), rng(sl[1], w)], [rng(ss[0], bh), rng(ss[1], bw)]]
 
 
+def value_ok(r, B):
+    """A box is its four corners: once its centre, extent and shape have been looked at it still equals a box with the same corners,
+    and after a corner has been re-assigned they follow the new pixel set."""
+    if r is None:
+        return None
+    looked = (r.center, r.extent, r.shape)      # noqa: F841
+    same_corners = B(r.ixmin, r.ixmax, r.iymin, r.iymax)
+    if not (r == same_corners and same_corners == r) or (r != same_corners):
+        return 'a box whose centre / extent have been read no longer equals a box with the same corners'
+    moved = B(r.ixmin, r.ixmax, r.iymin, r.iymax)
+    looked = (moved.center, moved.extent, moved.shape)      # noqa: F841
+    moved.ixmax = moved.ixmax + 2
+    moved.iymin = moved.iymin - 1
+    fresh = B(r.ixmin, r.ixmax + 2, r.iymin - 1, r.iymax)
+    if tuple(moved.center) != tuple(fresh.center) or tuple(moved.extent) != tuple(fresh.extent) or tuple(moved.shape) != tuple(fresh.shape) or not (moved == fresh):
+        return 'centre / extent / shape do not follow a re-assigned corner'
+    return None
+
+
 def call(op, a, b, c, img, flt, B, wrap=int, eps=(0, 0, 0, 0), epsk=20, wrapb=None):
-    """Perform one operation on the real class; return the projected result."""
+    """Perform one operation on the real class; return the projected result.  Every other call runs with warnings turned into errors:
+    building an empty box, or the empty intersection of touching boxes, is ordinary use and may not fail under `-W error`."""
+    import warnings
+    with warnings.catch_warnings():
+        if (int(a[0]) + int(a[2]) + int(b[0] if len(b) else 0)) % 2:
+            warnings.simplefilter('error')
+        return _call(op, a, b, c, img, flt, B, wrap, eps, epsk, wrapb)
+
+
+def _call(op, a, b, c, img, flt, B, wrap, eps, epsk, wrapb):
     try:
         if op == 'from_float':
             d = 2.0 ** -epsk
@@ -78,12 +106,18 @@ def call(op, a, b, c, img, flt, B, wrap=int, eps=(0, 0, 0, 0), epsk=20, wrapb=No
             r2 = A | B(*[wrapb(v) for v in b])
             if proj_box(r1) != proj_box(r2):
                 return {'exc': 'union!=|'}
+            bad = value_ok(r1, B)
+            if bad or not (r1 == r2 and (B(*[wrapb(v) for v in b]) | A) == r1):
+                return {'exc': bad or 'a | b, a.union(b) and b | a do not compare equal'}
             return proj_box(r1)
         if op == 'intersection':
             r1 = A.intersection(B(*[wrapb(v) for v in b]))
             r2 = A & B(*[wrapb(v) for v in b])
             if proj_box(r1) != proj_box(r2):
                 return {'exc': 'intersection!=&'}
+            bad = value_ok(r1, B)
+            if bad or (r1 is not None and not (r1 == r2 and (B(*[wrapb(v) for v in b]) & A) == r1)):
+                return {'exc': bad or 'a & b, a.intersection(b) and b & a do not compare equal'}
             return proj_box(r1)
         if op == 'shape':
             return [int(v) for v in A.shape]
@@ -219,7 +253,7 @@ def trace_validation(ctx, B):
             signed = True
         else:
             info = np.iinfo(wrap)
-            mag = min(int(info.max) // 4, 10 ** 9)
+            mag = min(int(info.max), 10 ** 9)         # the whole range of the type: a side length may exceed what the type itself can hold
             signed = info.min < 0
         a = box(mag, signed)
         b = box(mag, signed)
@@ -258,7 +292,7 @@ def trace_validation(ctx, B):
                 b = box(rnd.choice([1000, 10 ** 6, 10 ** 9]), True)
             else:
                 infob = np.iinfo(wrapb)
-                b = box(min(int(infob.max) // 4, 10 ** 9), infob.min < 0)
+                b = box(min(int(infob.max), 10 ** 9), infob.min < 0)
         real = call(op, a, b, [0, 0, 0, 0], img, flt, B, wrap=wrap, eps=eps, epsk=epsk, wrapb=wrapb)
         if isinstance(real, dict):
             res = real
